@@ -3,6 +3,7 @@ package lazy
 import (
 	"unsafe"
 
+	"github.com/coregx/coregex/nfa"
 	"github.com/coregx/coregex/verifhook"
 )
 
@@ -68,6 +69,10 @@ type DFACache struct {
 
 	// clearCount tracks cache clear count for NFA fallback threshold.
 	clearCount int
+
+	// pikevm is this cache's private PikeVM for NFA fallback, forked lazily
+	// from the DFA's template PikeVM (see DFA.fallbackVM).
+	pikevm *nfa.PikeVM
 
 	// Statistics
 	hits   uint64
